@@ -371,7 +371,7 @@ func TestVerifC08Race(t *testing.T) {
 				ballots[spec.String()] = e.ballot(spec)
 			}
 		}
-		for rep := 0; rep < 40; rep++ {
+		for rep := 0; rep < 6; rep++ {
 			sc := c08build(e, s, ballots)
 			if !vsched.RunNative(20*time.Second, sc.Roots...) {
 				t.Fatalf("free-running scenario %s did not finish", s.id())
